@@ -14,6 +14,8 @@ class Naming(object):
         self.scheme = scheme
 
     def level(self, l):
+        if self.scheme == 'prefix':
+            return 'lv' + 'x' * l           # every level name is a prefix of the names of the finer levels
         if self.scheme == 'quoted':
             return f'lv {l}'
         if self.scheme == 'structural':
@@ -23,6 +25,8 @@ class Naming(object):
         return 'abcdefghij'[l]
 
     def node(self, l, n):
+        if self.scheme == 'prefix':
+            return f'p{l}n{n}'
         if self.scheme == 'quoted':
             return f'k{n}, "x{l}"'
         if self.scheme == 'structural':
